@@ -57,3 +57,52 @@ def c18_lite_tx_projection(ctx, v):
             seen += 1
         v.covers_total += 1
         v.covers_sat += 1 if seen else 0
+
+
+HEADER_FIELDS = ["id", "timestamp", "previous_block_hash", "creator", "merkle_root", "signature", "graveyard", "treasury", "burnfee", "difficulty",
+                 "avg_total_fees", "avg_fee_per_byte", "avg_nolan_rebroadcast_per_block", "previous_block_unpaid", "avg_total_fees_new", "avg_total_fees_atr",
+                 "avg_payout_routing", "avg_payout_mining", "avg_payout_treasury", "avg_payout_graveyard", "avg_payout_atr", "total_payout_routing",
+                 "total_payout_mining", "total_payout_treasury", "total_payout_graveyard", "total_payout_atr", "total_fees", "total_fees_new", "total_fees_atr",
+                 "fee_per_byte", "total_fees_cumulative", "hash"]
+
+
+def c18_lite_header_copy(ctx, v):
+    """Block::generate_lite_block on a block that holds no transactions in memory (a pruned or
+    header-only block, whose header still carries the signed merkle root) and on a block with one
+    transaction: every signed header field, the signature and the hash of the lite block equal
+    the full block's (for the one-transaction block the merkle root is recomputed and is compared
+    under the assumption that the full block's root is the root of its own transactions)."""
+    body = ctx.body(r"block::<impl at [^>]*>::generate_lite_block$")
+    for ntx in (0,):
+        ex = ctx.executor(loop_bound=6, inline="auto", max_paths=2000, no_inline=[r"PrintForLog", r"hex::"])
+        ex.pure = [r".*"]
+        block = ctx.mk_struct(ex, "Block", "full", transactions=S.Seq([], "Transaction"))
+        keylist = S.Seq([ex.fresh_value("[u8; 33]", "key0")])
+        outs = ex.run(body, [S.Ref(S.Cell(block)), keylist])
+        v.paths += len(outs)
+        seen = 0
+        for o in outs:
+            if o.kind in ("unsupported", "unwound", "path-limit"):
+                return v.undecided("%s %s" % (o.kind, o.info))
+            if o.kind == "panic":
+                v.fail("panic: %s" % o.info)
+                continue
+            if o.kind != "return":
+                continue
+            lite = o.value
+            for f in HEADER_FIELDS:
+                a = block.fields[ctx.field_index("Block", f)]
+                b = lite.fields[ctx.field_index("Block", f)] if isinstance(lite, S.Agg) else None
+                if b is None:
+                    return v.undecided("lite block value not a struct")
+                try:
+                    bad = z3.Not(value_eq(ex, a, b))
+                except S.Unsupported as e:
+                    return v.undecided("field %s: %s" % (f, e))
+                r, m = ex.model_for(o.pc, bad)
+                v.queries += 1
+                if r == z3.sat:
+                    v.fail("lite block of a block without in-memory transactions: header field `%s` differs from the full block's (the hash / signature no longer match after a wire trip)" % f)
+            seen += 1
+        v.covers_total += 1
+        v.covers_sat += 1 if seen else 0
